@@ -9,7 +9,7 @@ if [ -n "$(git status --porcelain)" ]; then echo "try_mutant: /repo is not clean
 if ! git apply --recount --whitespace=nowarn "$patch"; then echo "try_mutant: patch does not apply" >&2; exit 2; fi
 trap 'git -C /repo checkout -- . ; git -C /repo clean -fdq' EXIT
 mkdir -p /verif/.work/mutant-replays
-out=$(cd /verif && PBSIM_SECS=$secs PBSIM_REPLAY_DIR=/verif/.work/mutant-replays ./check "$id" "$tier" 2>&1 | grep -v conda)
+out=$(cd /verif && PBSIM_SECS=$secs PBSIM_REPLAY_DIR=/verif/.work/mutant-replays PBSIM_EVIDENCE_DIR=/verif/.work/mutant-evidence ./check "$id" "$tier" 2>&1 | grep -v conda)
 code=$?
 echo "$out" | tail -6
 if echo "$out" | grep -q "^VIOLATION property=$id"; then echo "RESULT $(basename "$patch") $id: DETECTED"; else echo "RESULT $(basename "$patch") $id: MISSED"; fi
